@@ -1,7 +1,8 @@
 #!/bin/sh
-# regenerate the generated sections of DESIGN.md (8, 9, 10) -- ORDER MATTERS: each tool rewrites from its heading to Appendix A
+# regenerate the generated sections of DESIGN.md (8, 9, 10, 11) -- ORDER MATTERS: each tool rewrites from its heading to Appendix A
 set -e
 python3 /verif/tools/seedtable.py | tail -1
 python3 /verif/tools/findingstable.py
 python3 /verif/tools/asbuilt.py
+python3 /verif/tools/benigntable.py
 grep -c '^## ' /verif/DESIGN.md
